@@ -74,15 +74,25 @@ def gen_edges(uname, timeout=1800):
     return ep
 
 
-def sample_edges(uname, k, rnd):
-    """k seed-sampled histories of the edge cover (all of them if k is None or >= size)"""
+def sample_edges(uname, k, rnd, pred=None, frac=0.5):
+    """k seed-sampled histories of the edge cover (all of them if k is None or >= size).  Every edge
+    carries the result the specification gives its last call; `pred(result, history)` selects the
+    edges that exercise the property at hand: up to frac*k of the sample is drawn from those, the
+    rest uniformly from all edges (stratified sampling - the cover itself is unchanged)."""
     ep = gen_edges(uname)
     with open(ep) as f:
         lines = f.readlines()
     total = len(lines)
-    if k is not None and k < total:
-        lines = rnd.sample(lines, k)
-    return [json.loads(l) for l in lines], total
+    if k is None or k >= total:
+        return [json.loads(l)["h"] for l in lines], total
+    chosen = set()
+    if pred is not None:
+        rel = [i for i, l in enumerate(lines) if pred(*(lambda e: (e["r"], e["h"]))(json.loads(l)))]
+        want = min(len(rel), int(k * frac))
+        chosen.update(rnd.sample(rel, want))
+    rest = [i for i in range(total) if i not in chosen]
+    chosen.update(rnd.sample(rest, k - len(chosen)))
+    return [json.loads(lines[i])["h"] for i in sorted(chosen)], total
 
 
 def with_variants(hist, rnd, p_reopen=0.15, p_rebuild=0.08):
